@@ -45,6 +45,11 @@ type Case struct {
 	// Storm, when set, replaces the scripts: in round r every session announces
 	// (0, 8(r+1)+Storm[r][i]) at the same moment (released from a spin barrier).
 	Storm [][]int `json:"storm,omitempty"`
+	// Loop (churn workloads): the Get readers and Flush callers keep calling, with a
+	// pause of Gets[i] / Flushes[i] microseconds between calls, until every Modify
+	// session has finished its script - so that they overlap the modifications for
+	// certain instead of finishing on an empty RIB before the first operation.
+	Loop bool `json:"loop,omitempty"`
 }
 
 func setup() {
@@ -107,15 +112,17 @@ func runCase(c Case) *ev.Verdict {
 		return v
 	}
 	res := make([]*sessResult, n)
-	var wg sync.WaitGroup
+	var wg, swg sync.WaitGroup
 	var running, modifySteps, overlapReads, overlapFlush, concurrentAnnounce int64
 	var mu sync.Mutex
 	start := make(chan struct{})
 	for i := range xs {
 		res[i] = &sessResult{results: map[uint64][]spb.AFTResult_Status{}, sent: map[uint64]*gen.Op{}}
 		wg.Add(1)
+		swg.Add(1)
 		go func(i int) {
 			defer wg.Done()
+			defer swg.Done()
 			<-start
 			mu.Lock()
 			running++
@@ -186,12 +193,31 @@ func runCase(c Case) *ev.Verdict {
 	var aux []*drive.Hang
 	var auxErr []string
 	var auxMu sync.Mutex
+	// loop mode: aux callers run until the sessions are done (at most 5000 calls each)
+	sessionsDone := make(chan struct{})
+	keepGoing := func(j, k int) bool {
+		if !c.Loop {
+			return j < k
+		}
+		if j >= 5000 {
+			return false
+		}
+		select {
+		case <-sessionsDone:
+			return false
+		default:
+		}
+		if j > 0 {
+			time.Sleep(time.Duration(k) * time.Microsecond)
+		}
+		return true
+	}
 	for _, k := range c.Gets {
 		wg.Add(1)
 		go func(k int) {
 			defer wg.Done()
 			<-start
-			for j := 0; j < k; j++ {
+			for j := 0; keepGoing(j, k); j++ {
 				mu.Lock()
 				if running > 0 {
 					overlapReads++
@@ -217,7 +243,7 @@ func runCase(c Case) *ev.Verdict {
 		go func(k int) {
 			defer wg.Done()
 			<-start
-			for j := 0; j < k; j++ {
+			for j := 0; keepGoing(j, k); j++ {
 				mu.Lock()
 				if running > 0 {
 					overlapFlush++
@@ -250,6 +276,7 @@ func runCase(c Case) *ev.Verdict {
 		}(k)
 	}
 	close(start)
+	go func() { swg.Wait(); close(sessionsDone) }()
 	done := make(chan struct{})
 	go func() { wg.Wait(); close(done) }()
 	select {
@@ -362,6 +389,9 @@ func runCase(c Case) *ev.Verdict {
 	if overlapFlush > 0 {
 		v.Class("flush-overlaps-modify")
 	}
+	if c.Loop {
+		v.Class("churn")
+	}
 	v.NonTrivial = concurrentAnnounce >= 2 && (overlapReads > 0 || overlapFlush > 0)
 	return v
 }
@@ -463,13 +493,32 @@ func TestReplay(t *testing.T) {
 	}
 }
 
-func drawCase(rt *rapid.T) Case {
+func drawCase(rt *rapid.T) Case { return drawCaseN(rt, 2, 8, 3) }
+
+// drawChurn draws a long workload in which Get readers and Flush callers loop
+// for as long as the sessions modify: chains (next-hop <- group <- prefixes in
+// several instances, cross-instance references) are built, replaced and deleted
+// while the tables and reference counters are being flushed and read.
+func drawChurn(rt *rapid.T) Case {
+	c := drawCaseN(rt, 12, 30, 7)
+	c.Loop = true
+	c.Gets, c.Flushes = nil, nil
+	for i := rapid.IntRange(0, 2).Draw(rt, "loop-readers"); i > 0; i-- {
+		c.Gets = append(c.Gets, rapid.IntRange(0, 300).Draw(rt, "get-pause-us"))
+	}
+	for i := rapid.IntRange(1, 2).Draw(rt, "loop-flushers"); i > 0; i-- {
+		c.Flushes = append(c.Flushes, rapid.IntRange(0, 400).Draw(rt, "flush-pause-us"))
+	}
+	return c
+}
+
+func drawCaseN(rt *rapid.T, minActs, maxActs, elecOneIn int) Case {
 	c := Case{Procs: []int{2, 4, 16}[rapid.IntRange(0, 2).Draw(rt, "procs")], FIB: rapid.Bool().Draw(rt, "fib")}
 	ns := rapid.IntRange(2, 4).Draw(rt, "sessions")
 	opid := uint64(0)
 	for si := 0; si < ns; si++ {
 		var acts []Act
-		na := rapid.IntRange(2, 8).Draw(rt, "nacts")
+		na := rapid.IntRange(minActs, maxActs).Draw(rt, "nacts")
 		base := uint64(rapid.IntRange(1, 3).Draw(rt, "idbase")) // deliberately overlapping bases: ties across sessions
 		elecN := uint64(0)
 		nh, nhg := 0, 0
@@ -478,7 +527,7 @@ func drawCase(rt *rapid.T) Case {
 			if y > 8 {
 				y = rapid.IntRange(9, 200).Draw(rt, "sleep-us")
 			}
-			if a == 0 || rapid.IntRange(0, 3).Draw(rt, "elec?") == 0 {
+			if a == 0 || rapid.IntRange(0, elecOneIn).Draw(rt, "elec?") == 0 {
 				elecN++
 				id := gen.ID128{Hi: uint64(rapid.IntRange(0, 1).Draw(rt, "hi")), Lo: base + elecN*uint64(rapid.IntRange(1, 2).Draw(rt, "step"))}
 				acts = append(acts, Act{K: "elec", ID: &id, Yield: y})
@@ -541,6 +590,13 @@ func TestCampaign(t *testing.T) {
 	t.Run("random", func(t *testing.T) {
 		rapid.Check(t, func(rt *rapid.T) {
 			c := drawCase(rt)
+			v := runCase(c)
+			col.Check(rt, ev.JSON(c), v)
+		})
+	})
+	t.Run("churn", func(t *testing.T) {
+		rapid.Check(t, func(rt *rapid.T) {
+			c := drawChurn(rt)
 			v := runCase(c)
 			col.Check(rt, ev.JSON(c), v)
 		})
